@@ -608,7 +608,7 @@ pub fn c01_slice(report: &mut Report) -> u64 {
             ("pol-v4only".into(), Ex::AutNum("AS65002".into())),
         ];
         let mut installed = Instance::default();
-        for round in 0..4 {
+        for round in 0..6 {
             match round {
                 1 => {
                     // the IRR data changes: one origin loses its routes, another gains one
@@ -619,13 +619,21 @@ pub fn c01_slice(report: &mut Report) -> u64 {
                 }
                 _ => {}
             }
-            let managed: Vec<&(String, Ex)> = if round == 3 { exprs.iter().skip(1).collect() } else { exprs.iter().collect() };
+            // round 3: one policy loses its marker; round 4: every remaining policy becomes unevaluable
+            // (unknown as-set) except that one more loses its marker; round 5: nothing is managed any more
+            let managed: Vec<(String, Ex)> = match round {
+                3 => exprs.iter().skip(1).cloned().collect(),
+                4 => exprs.iter().skip(2).map(|(n, _)| (n.clone(), Ex::AsSet("AS-GONE".into()))).collect(),
+                5 => vec![],
+                _ => exprs.clone(),
+            };
+            let managed: Vec<&(String, Ex)> = managed.iter().collect();
             let running: Vec<RunningStmt> = managed.iter().map(|(n, e)| managed_stmt(n, &e.render())).collect();
             let scn = Scenario { instance_name: None, running, ephemeral: installed.clone(), fault: None, expected_loads: 0, irr_plan: Plan::default() };
             let rec = run_agent(&scn, &irrd, &format!("C01-{variant}-{round}"));
             runs += 1;
             let case = json!({"database_variant": variant, "round": round, "requests_seen": rec.rpcs, "exit_status": rec.exit, "installed_before": installed.render_configuration(), "installed_after": rec.ephemeral_after.render_configuration(), "agent_log_tail": rec.stderr_tail});
-            if rec.exit != Some(0) || rec.commits != 1 {
+            if rec.exit != Some(0) {
                 report.violation(&format!("C01:e2e:run-fails:round-{round}"), &format!("run {round} of the end-to-end history failed (exit {:?}, commits {})", rec.exit, rec.commits), case);
                 break;
             }
@@ -635,9 +643,17 @@ pub fn c01_slice(report: &mut Report) -> u64 {
                     report.violation("C01:e2e:steady-state-run-changes-configuration", "a run with unchanged inputs changed the installed configuration", case.clone());
                 }
             }
+            let before = installed.clone();
             installed = rec.ephemeral_after.clone();
             for (name, ex) in &exprs {
                 let is_managed = managed.iter().any(|(n, _)| n == name);
+                if round == 4 && is_managed {
+                    // not evaluable in this round: must be left exactly as it was
+                    if installed.policies.get(name) != before.policies.get(name) {
+                        report.violation("C01:e2e:unevaluable-policy-changed", &format!("round {round}: policy {name} could not be evaluated but its installed form changed"), case.clone());
+                    }
+                    continue;
+                }
                 match (installed.policies.get(name), is_managed) {
                     (Some(_), false) => report.violation("C01:e2e:unmanaged-policy-remains", &format!("round {round}: policy {name} is no longer managed but still installed"), case.clone()),
                     (None, true) => report.violation("C01:e2e:policy-not-installed", &format!("round {round}: policy {name} is managed and evaluated but not installed"), case.clone()),
@@ -654,6 +670,26 @@ pub fn c01_slice(report: &mut Report) -> u64 {
                         }
                     }
                     (None, false) => {}
+                }
+            }
+        }
+    }
+    // a run in which the router refuses one of the loads: if it still reports success, the refused
+    // policy must nevertheless be at its target (it cannot be) - "when a run reports success ..."
+    {
+        let model: Model = base_model(0);
+        let irrd = Irrd::start(model.db.clone());
+        let pols = [("pol-x", "AS65001"), ("pol-y", "AS65002"), ("pol-z", "AS65003")];
+        for k in 3..6 {
+            let running: Vec<RunningStmt> = pols.iter().map(|(n, e)| managed_stmt(n, e)).collect();
+            let scn = Scenario { instance_name: None, running, ephemeral: Instance::default(), fault: Some((k, FaultKind::RpcError)), expected_loads: 3, irr_plan: Plan::default() };
+            let rec = run_agent(&scn, &irrd, &format!("C01-refused-{k}"));
+            runs += 1;
+            if rec.exit == Some(0) {
+                for (name, _) in &pols {
+                    if !rec.ephemeral_after.policies.contains_key(*name) {
+                        report.violation("C01:e2e:success-reported-but-policy-not-installed", &format!("the router refused load {k}, the run reported success, and policy {name} is not installed"), json!({"requests_seen": rec.rpcs, "acknowledged": rec.acked, "exit_status": rec.exit, "installed_after": rec.ephemeral_after.render_configuration()}));
+                    }
                 }
             }
         }
